@@ -6,6 +6,9 @@ import (
 	"encoding/json"
 	"errors"
 	"fmt"
+	"io"
+	"net"
+	"os"
 	"reflect"
 	"sort"
 	"strings"
@@ -71,19 +74,20 @@ type mnode struct {
 	owner int64
 }
 
-// isConnErr: the call failed because of the connection (library sentinel or a raw
-// network error surfacing from a dropped connection), i.e. anything that is not a
-// data-level answer of the coordination layer or the ZooKeeper protocol.
+// isConnErr: the call failed because of the connection - one of the client library's
+// connection sentinels or a raw network error surfacing from a dropped connection.
+// Everything else is a data-level answer and is judged against the model.
 func isConnErr(err error) bool {
 	if err == nil {
 		return false
 	}
-	for _, e := range []error{ErrExists, ErrNotFound, ErrMalformed, zk.ErrNoNode, zk.ErrNodeExists, zk.ErrNotEmpty, zk.ErrBadVersion, zk.ErrNoChildrenForEphemerals} {
+	for _, e := range []error{zk.ErrNoServer, zk.ErrConnectionClosed, zk.ErrSessionExpired, zk.ErrClosing, io.ErrClosedPipe, io.EOF, io.ErrUnexpectedEOF, os.ErrDeadlineExceeded} {
 		if errors.Is(err, e) {
-			return false
+			return true
 		}
 	}
-	return !strings.Contains(err.Error(), "not ephemeral")
+	var ne net.Error
+	return errors.As(err, &ne) || strings.Contains(err.Error(), "closed pipe") || strings.Contains(err.Error(), "failed to read from connection")
 }
 
 func c15Normalize(p string) string {
@@ -149,6 +153,20 @@ func jsonEq(a any, raw []byte) bool {
 
 type c15Model struct {
 	nodes map[string]*mnode
+}
+
+// clone copies the model, leaving out ephemeral keys owned by the given sessions.
+func (m *c15Model) clone(without map[int64]bool) *c15Model {
+	n := &c15Model{nodes: make(map[string]*mnode, len(m.nodes))}
+	for p, x := range m.nodes {
+		if x.owner != 0 && without[x.owner] {
+			continue
+		}
+		cp := *x
+		cp.data = append([]byte(nil), x.data...)
+		n.nodes[p] = &cp
+	}
+	return n
 }
 
 func (m *c15Model) children(p string) []string {
@@ -233,32 +251,50 @@ func TestVerifC15(t *testing.T) {
 		model := &c15Model{nodes: map[string]*mnode{c15NS: {data: []byte{}}}}
 		sawEphemeralEnd, sawMalformed, sawParent := false, false, false
 
-		compare := func(step string) {
-			// ephemerals die with their session
-			for p, n := range model.nodes {
+		// treeDiff brings m up to date with ended sessions and returns the first difference
+		// between it and the server's tree ("" if none).
+		treeDiff := func(m *c15Model, step string) (string, string) {
+			for p, n := range m.nodes {
 				if n.owner != 0 && !srv.SessionAlive(n.owner) {
-					delete(model.nodes, p)
+					delete(m.nodes, p)
 					sawEphemeralEnd = true
 				}
 			}
 			dump := srv.Dump()
 			delete(dump, "/")
-			for p, n := range model.nodes {
+			var paths []string
+			for p := range m.nodes {
+				paths = append(paths, p)
+			}
+			sort.Strings(paths)
+			for _, p := range paths {
+				n := m.nodes[p]
 				v, ok := dump[p]
 				if !ok {
-					c.Violation("c15-tree-missing", "after %s: key %s should exist (owner session %x) but is absent on the server", step, p, n.owner)
+					return "c15-tree-missing", fmt.Sprintf("after %s: key %s should exist (owner session %x) but is absent on the server", step, p, n.owner)
 				}
 				if v.Data != string(n.data) {
-					c.Violation("c15-tree-data", "after %s: key %s holds %q, reference model %q", step, p, v.Data, n.data)
+					return "c15-tree-data", fmt.Sprintf("after %s: key %s holds %q, reference model %q", step, p, v.Data, n.data)
 				}
 				if (v.Owner != 0) != (n.owner != 0) {
-					c.Violation("c15-tree-ephemeral", "after %s: key %s ephemeral=%v on the server, reference model ephemeral=%v", step, p, v.Owner != 0, n.owner != 0)
+					return "c15-tree-ephemeral", fmt.Sprintf("after %s: key %s ephemeral=%v on the server, reference model ephemeral=%v", step, p, v.Owner != 0, n.owner != 0)
 				}
 			}
+			paths = paths[:0]
 			for p := range dump {
-				if _, ok := model.nodes[p]; !ok {
-					c.Violation("c15-tree-extra", "after %s: key %s exists on the server (%q) but not in the reference model", step, p, dump[p].Data)
+				paths = append(paths, p)
+			}
+			sort.Strings(paths)
+			for _, p := range paths {
+				if _, ok := m.nodes[p]; !ok {
+					return "c15-tree-extra", fmt.Sprintf("after %s: key %s exists on the server (%q) but not in the reference model", step, p, dump[p].Data)
 				}
+			}
+			return "", ""
+		}
+		compare := func(step string) {
+			if sig, msg := treeDiff(model, step); sig != "" {
+				c.Violation(sig, "%s", msg)
 			}
 			// timing clause: a client cut off for longer than the session timeout has no ephemeral keys left
 			for _, cl := range clients {
@@ -324,191 +360,223 @@ func TestVerifC15(t *testing.T) {
 				if want := c15Normalize(strings.Join(key, "/")); want != full {
 					t.Fatalf("harness: spelling %q normalises to %q, key is %q", spelled, full, want)
 				}
-				node, exists := model.nodes[full]
 				step += fmt.Sprintf(" client=%s path=%q", cl.name, spelled)
-				switch act {
-				case "create", "create-ephemeral":
-					if len(key) == 0 {
-						break
-					}
-					val := c15Value(c)
-					var err error
-					var sess int64
-					runOp(c, step, func() {
-						if act == "create" {
-							err = cl.d.Create(spelled, val)
-						} else {
-							err = cl.d.CreateEphemeral(spelled, val)
-						}
-						sess = VerifSessionID(cl.d)
-					})
-					if isConnErr(err) {
-						c.Class("op-on-disconnected-client")
-						break
-					}
-					if exists != errors.Is(err, ErrExists) {
-						c.Violation("c15-create-exists", "%s: key present=%v but create returned %v (must be ErrExists exactly when the key exists)", step, exists, err)
-					}
-					if exists {
-						break
-					}
-					parent, pok := model.nodes[c15Parent(full)]
-					if !pok || parent.owner != 0 {
-						if err == nil {
-							c.Violation("c15-create-parent", "%s: create succeeded although the parent is missing or ephemeral", step)
-						}
-						break
-					}
-					if err != nil {
-						c.Violation("c15-create-fails", "%s: create of an absent key under an existing parent failed: %v", step, err)
-					}
-					data, _ := json.Marshal(val)
-					n := &mnode{data: data}
-					if act == "create-ephemeral" {
-						n.owner = sess
-					}
-					model.nodes[full] = n
-				case "set", "set-ephemeral":
-					if len(key) == 0 && act == "set-ephemeral" {
-						break
-					}
-					val := c15Value(c)
-					var err error
-					var sess int64
-					runOp(c, step, func() {
-						if act == "set" {
-							err = cl.d.Set(spelled, val)
-						} else {
-							err = cl.d.SetEphemeral(spelled, val)
-						}
-						sess = VerifSessionID(cl.d)
-					})
-					if isConnErr(err) {
-						c.Class("op-on-disconnected-client")
-						break
-					}
-					data, _ := json.Marshal(val)
-					if exists {
-						if act == "set-ephemeral" && node.owner == 0 {
-							if err == nil {
-								c.Violation("c15-ephemeral-over-plain", "%s: SetEphemeral on a plain key reported success", step)
-							}
-							break // model unchanged; tree comparison proves it stayed plain
-						}
-						if err != nil {
-							c.Violation("c15-set-fails", "%s: overwrite of an existing key failed: %v", step, err)
-						}
-						node.data = data
-						break
-					}
-					miss, blocked := model.missingAncestors(full)
-					if blocked {
-						if err == nil {
-							c.Violation("c15-set-under-ephemeral", "%s: set below an ephemeral key reported success", step)
-						}
-						break
-					}
-					if err != nil {
-						c.Violation("c15-set-fails", "%s: set of an absent key failed: %v (missing parents %v must be created)", step, err, miss)
-					}
-					for _, p := range miss {
-						model.nodes[p] = &mnode{data: []byte{}}
-						sawParent = true
-					}
-					n := &mnode{data: data}
-					if act == "set-ephemeral" {
-						n.owner = sess
-					}
-					model.nodes[full] = n
-				case "get":
-					var dest any
-					var err error
-					runOp(c, step, func() { err = cl.d.Get(spelled, &dest) })
-					if isConnErr(err) {
-						c.Class("op-on-disconnected-client")
-						break
-					}
-					switch {
-					case !exists:
-						if !errors.Is(err, ErrNotFound) {
-							c.Violation("c15-get-missing", "%s: get of a missing key returned %v, want ErrNotFound", step, err)
-						}
-					case !json.Valid(node.data):
-						sawMalformed = true
-						if !errors.Is(err, ErrMalformed) {
-							c.Violation("c15-get-malformed", "%s: key holds unparsable bytes %q but get returned %v, want ErrMalformed", step, node.data, err)
-						}
-					default:
-						if err != nil {
-							c.Violation("c15-get-fails", "%s: get of key holding %q failed: %v", step, node.data, err)
-						}
-						if !jsonEq(dest, node.data) {
-							c.Violation("c15-get-value", "%s: get returned %v, key holds %q", step, dest, node.data)
-						}
-					}
-				case "delete":
-					if len(key) == 0 {
-						break
-					}
-					var err error
-					runOp(c, step, func() { err = cl.d.Delete(spelled) })
-					if isConnErr(err) {
-						c.Class("op-on-disconnected-client")
-						break
-					}
-					switch {
-					case !exists:
-						if err != nil {
-							c.Violation("c15-delete-missing", "%s: delete of a missing key returned %v, want nil (idempotent)", step, err)
-						}
-					case len(model.children(full)) > 0:
-						if err == nil {
-							c.Violation("c15-delete-nonempty", "%s: delete of a key with children reported success", step)
-						}
-					default:
-						if err != nil {
-							c.Violation("c15-delete-fails", "%s: delete of a leaf failed: %v", step, err)
-						}
-						delete(model.nodes, full)
-					}
-				case "children":
-					var ch []string
-					var err error
-					runOp(c, step, func() { ch, err = cl.d.GetChildren(spelled) })
-					if isConnErr(err) {
-						c.Class("op-on-disconnected-client")
-						break
-					}
-					if !exists {
-						if !errors.Is(err, ErrNotFound) {
-							c.Violation("c15-children-missing", "%s: children of a missing key returned (%v, %v), want ErrNotFound", step, ch, err)
-						}
-						break
-					}
-					sort.Strings(ch)
-					if err != nil || !reflect.DeepEqual(append([]string{}, ch...), append([]string{}, model.children(full)...)) {
-						c.Violation("c15-children", "%s: children returned (%v, %v), reference model %v", step, ch, err, model.children(full))
-					}
-				case "tree":
-					var tr any
-					var err error
-					runOp(c, step, func() { tr, err = cl.d.GetTree(spelled) })
-					if isConnErr(err) {
-						c.Class("op-on-disconnected-client")
-						break
-					}
-					if !exists {
-						if err == nil {
-							c.Violation("c15-tree-of-missing", "%s: GetTree of a missing key returned %v without error", step, tr)
-						}
-						break
-					}
-					want := model.tree(full)
-					wb, _ := json.Marshal(want)
-					if err != nil || !jsonEq(tr, wb) {
-						c.Violation("c15-gettree", "%s: GetTree returned (%v, %v), reference model %s", step, tr, err, wb)
+				if len(key) == 0 && (act == "create" || act == "create-ephemeral" || act == "set-ephemeral" || act == "delete") {
+					break
+				}
+				var val any
+				if act == "create" || act == "create-ephemeral" || act == "set" || act == "set-ephemeral" {
+					val = c15Value(c)
+				}
+				// bring the model up to date with sessions that ended before the call
+				for p, n := range model.nodes {
+					if n.owner != 0 && !srv.SessionAlive(n.owner) {
+						delete(model.nodes, p)
+						sawEphemeralEnd = true
 					}
 				}
+				mutsBefore := srv.MutLen()
+				var (
+					err  error
+					sess int64
+					dest any
+					ch   []string
+					tr   any
+				)
+				runOp(c, step, func() {
+					switch act {
+					case "create":
+						err = cl.d.Create(spelled, val)
+					case "create-ephemeral":
+						err = cl.d.CreateEphemeral(spelled, val)
+					case "set":
+						err = cl.d.Set(spelled, val)
+					case "set-ephemeral":
+						err = cl.d.SetEphemeral(spelled, val)
+					case "get":
+						err = cl.d.Get(spelled, &dest)
+					case "delete":
+						err = cl.d.Delete(spelled)
+					case "children":
+						ch, err = cl.d.GetChildren(spelled)
+					case "tree":
+						tr, err = cl.d.GetTree(spelled)
+					}
+					sess = VerifSessionID(cl.d)
+				})
+				if isConnErr(err) {
+					c.Class("op-on-disconnected-client")
+					break
+				}
+				// A call on a reconnecting client takes virtual time; sessions of other (cut
+				// off) clients may end while it waits, taking their ephemeral keys with them.
+				// The result must then be right for the tree before or after those ends.
+				endedDuring := map[int64]bool{}
+				for _, m := range srv.MutSnapshot()[mutsBefore:] {
+					if m.Op == vs.OpExpire {
+						endedDuring[m.Session] = true
+					}
+				}
+				type evalFail struct{ sig, msg string }
+				judge := func(m *c15Model) (ef *evalFail) {
+					defer func() {
+						if r := recover(); r != nil {
+							if x, ok := r.(evalFail); ok {
+								ef = &x
+								return
+							}
+							panic(r)
+						}
+					}()
+					fail := func(sig, format string, args ...any) { panic(evalFail{sig, fmt.Sprintf(format, args...)}) }
+					node, exists := m.nodes[full]
+					data, _ := json.Marshal(val)
+					switch act {
+					case "create", "create-ephemeral":
+						if exists != errors.Is(err, ErrExists) {
+							fail("c15-create-exists", "%s: key present=%v but create returned %v (must be ErrExists exactly when the key exists)", step, exists, err)
+						}
+						if exists {
+							return
+						}
+						parent, pok := m.nodes[c15Parent(full)]
+						if !pok || parent.owner != 0 {
+							if err == nil {
+								fail("c15-create-parent", "%s: create succeeded although the parent is missing or ephemeral", step)
+							}
+							return
+						}
+						if err != nil {
+							fail("c15-create-fails", "%s: create of an absent key under an existing parent failed: %v", step, err)
+						}
+						n := &mnode{data: data}
+						if act == "create-ephemeral" {
+							n.owner = sess
+						}
+						m.nodes[full] = n
+					case "set", "set-ephemeral":
+						if exists {
+							if act == "set-ephemeral" && node.owner == 0 {
+								if err == nil {
+									fail("c15-ephemeral-over-plain", "%s: SetEphemeral on a plain key reported success", step)
+								}
+								return // model unchanged; the tree comparison proves it stayed plain
+							}
+							if err != nil {
+								fail("c15-set-fails", "%s: overwrite of an existing key failed: %v", step, err)
+							}
+							node.data = data
+							return
+						}
+						miss, blocked := m.missingAncestors(full)
+						if blocked {
+							if err == nil {
+								fail("c15-set-under-ephemeral", "%s: set below an ephemeral key reported success", step)
+							}
+							return
+						}
+						if err != nil {
+							fail("c15-set-fails", "%s: set of an absent key failed: %v (missing parents %v must be created)", step, err, miss)
+						}
+						for _, p := range miss {
+							m.nodes[p] = &mnode{data: []byte{}}
+							sawParent = true
+						}
+						n := &mnode{data: data}
+						if act == "set-ephemeral" {
+							n.owner = sess
+						}
+						m.nodes[full] = n
+					case "get":
+						switch {
+						case !exists:
+							if !errors.Is(err, ErrNotFound) {
+								fail("c15-get-missing", "%s: get of a missing key returned %v, want ErrNotFound", step, err)
+							}
+						case !json.Valid(node.data):
+							sawMalformed = true
+							if !errors.Is(err, ErrMalformed) {
+								fail("c15-get-malformed", "%s: key holds unparsable bytes %q but get returned %v, want ErrMalformed", step, node.data, err)
+							}
+						default:
+							if err != nil {
+								fail("c15-get-fails", "%s: get of key holding %q failed: %v", step, node.data, err)
+							}
+							if !jsonEq(dest, node.data) {
+								fail("c15-get-value", "%s: get returned %v, key holds %q", step, dest, node.data)
+							}
+						}
+					case "delete":
+						switch {
+						case !exists:
+							if err != nil {
+								fail("c15-delete-missing", "%s: delete of a missing key returned %v, want nil (idempotent)", step, err)
+							}
+						case len(m.children(full)) > 0:
+							if err == nil {
+								fail("c15-delete-nonempty", "%s: delete of a key with children reported success", step)
+							}
+						default:
+							if err != nil {
+								fail("c15-delete-fails", "%s: delete of a leaf failed: %v", step, err)
+							}
+							delete(m.nodes, full)
+						}
+					case "children":
+						if !exists {
+							if !errors.Is(err, ErrNotFound) {
+								fail("c15-children-missing", "%s: children of a missing key returned (%v, %v), want ErrNotFound", step, ch, err)
+							}
+							return
+						}
+						got := append([]string{}, ch...)
+						sort.Strings(got)
+						if err != nil || !reflect.DeepEqual(got, append([]string{}, m.children(full)...)) {
+							fail("c15-children", "%s: children returned (%v, %v), reference model %v", step, ch, err, m.children(full))
+						}
+					case "tree":
+						if !exists {
+							if err == nil {
+								fail("c15-tree-of-missing", "%s: GetTree of a missing key returned %v without error", step, tr)
+							}
+							return
+						}
+						wb, _ := json.Marshal(m.tree(full))
+						if err != nil || !jsonEq(tr, wb) {
+							fail("c15-gettree", "%s: GetTree returned (%v, %v), reference model %s", step, tr, err, wb)
+						}
+					}
+					return nil
+				}
+				// candidate readings: the call saw the tree as it was before, or after, the
+				// sessions that ended while it waited; one of them must explain both the
+				// result and the server's tree afterwards
+				cands := []*c15Model{model.clone(nil)}
+				if len(endedDuring) > 0 {
+					c.Class("session-ended-during-call")
+					cands = append(cands, model.clone(endedDuring))
+				}
+				var first *evalFail
+				chosen := (*c15Model)(nil)
+				for _, m := range cands {
+					ef := judge(m)
+					if ef == nil {
+						if sig, msg := treeDiff(m, step); sig != "" {
+							ef = &evalFail{sig, msg}
+						}
+					}
+					if ef == nil {
+						chosen = m
+						break
+					}
+					if first == nil {
+						first = ef
+					}
+				}
+				if chosen == nil {
+					c.Violation(first.sig, "%s", first.msg)
+				}
+				model = chosen
 			}
 			compare(step)
 		}
